@@ -33,7 +33,7 @@ def gen(tier, seed):
             V = [a] * (q + 1) + sum(([k] * m for k, m in zip(kb, mb)), []) + [b] * (q + 1)
             cases.append({"U": fsl(U), "p": p, "V": fsl(V), "q": q, "kind": kind,
                           "shared": len(set(ka) & set(kb))})
-    for i in range(40 if tier == "quick" else 600):
+    for i in range(40 if tier == "quick" else 3000):
         u, v = random_vector(rnd, pmax=3, mmax=3), random_vector(rnd, pmax=3, mmax=3)
         V = v["U"]
         if i % 5 == 0:
@@ -42,7 +42,7 @@ def gen(tier, seed):
                       "shared": len(set(u["U"]) & set(V)) - 2})
     # pairs on different intervals in every relative position (nested with ends on knots of the other or not, one end shared,
     # overlapping, touching, disjoint), both operand orders are exercised by the case itself: all must raise ValueError
-    for i in range(60 if tier == "quick" else 400):
+    for i in range(60 if tier == "quick" else 2000):
         u = random_vector(rnd, pmax=3, mmax=3)
         U, p = u["U"], u["p"]
         q = rnd.randint(0, 3)
